@@ -151,8 +151,8 @@ def m_isinstance(x, cls):
         tgt = {SBytes: bytes, SByteArray: bytearray, SStr: str, SInt: int, SBool: bool, SymSet: set}[t]
         if isinstance(cls, tuple):
             return any(m_isinstance(x, c) for c in cls)
-        if cls is t:
-            return True
+        if isinstance(cls, type) and cls.__module__ == "symx.core":
+            return isinstance(x, cls)
         try:
             return issubclass(tgt, cls)
         except TypeError:
